@@ -1064,8 +1064,7 @@ class C06(Prop):
         res.extra["max_message_size_seen"] = real_max
         ctx.log("correspondence: %d scenarios, %d recv calls, %d handler arrivals" % (
             res.evaluations, res.distribution.get("recv_calls", 0), res.distribution.get("handler_arrivals", 0)))
-        if not ctx.quick:
-            self._full_size_frame(ctx, res)
+        self._full_size_frame(ctx, res)
         return res
 
     def _full_size_frame(self, ctx: Ctx, res: Result):
